@@ -14,6 +14,8 @@ namespace Idpy.RPState
 structure IdT where
   nonce : Option Str
   sub : Str
+  atHash : Option Str := none        -- the access token the `at_hash` claim was computed over (hash idealised as injective)
+  cHash : Option Str := none         -- the code the `c_hash` claim was computed over
   deriving Repr, DecidableEq
 
 structure Rec where
@@ -43,6 +45,8 @@ structure AuthzResp where
   issParam : Option Str := none      -- RFC 9207 `iss`
   clientIdParam : Option Str := none
   idt : Option IdT := none           -- ID token delivered from the authorization endpoint
+  accessToken : Option Str := none   -- access token delivered from the authorization endpoint (response types with `token`)
+  audParam : Option Str := none      -- an `aud` response parameter (not a registered one; the OIDC response class looks at it)
   deriving Repr
 
 structure TokenResp where
@@ -68,6 +72,13 @@ def idtNonceBad (t : Option IdT) (stored : Option Str) : Bool :=
   | some t, some n => t.nonce != some n
   | _, _ => false
 
+/-- `verify_id_token`: an artefact delivered beside the ID token is not the one the token's hash claim was computed over
+    (a missing claim counts: "Missing at_hash property" / "Missing c_hash property") -/
+def hashBad (t : Option IdT) (v : Option Str) (h : IdT → Option Str) : Bool :=
+  match t, v with
+  | some t, some x => h t != some x
+  | _, _ => false
+
 def subBad (t : Option IdT) (sub : Str) : Bool :=
   match t with
   | some t => t.sub != sub
@@ -88,7 +99,12 @@ def tryStep (c : Client) : Op → Option Client
     -- OIDC post_parse_response: a delivered ID token must carry the nonce stored for THIS state
     check (!idtNonceBad r.idt rec.nonce)
     check (rec.iss == c.issuer)                        -- else "Impersonator"
-    some { c with db := put c.db s { rec with code := r.code.orElse (fun _ => rec.code), idt := r.idt.orElse (fun _ => rec.idt) } }
+    -- verify_id_token: BOTH hash claims, each against the artefact delivered in this very response
+    check (!hashBad r.idt r.accessToken (·.atHash))
+    check (!hashBad r.idt r.code (·.cHash))
+    check (!mismatch r.audParam c.clientId)            -- "not for me" (fix for F-C09-c: it used to SKIP the ID-token checks instead)
+    some { c with db := put c.db s { rec with code := r.code.orElse (fun _ => rec.code), idt := r.idt.orElse (fun _ => rec.idt),
+                                              accessToken := r.accessToken.orElse (fun _ => rec.accessToken) } }
   | .token s r => do
     let rec ← lookup c.db s
     match r.idt with
